@@ -198,6 +198,14 @@ pub struct Node {
     pub verdicts: Arc<Mutex<Vec<(Byte32, Result<bool, String>)>>>,
 }
 
+/// One background runtime per process for all persistent-directory nodes (as `SharedBuilder::with_temp_db` does per
+/// thread): a runtime per node leaves its worker threads spinning after the node is dropped, and a process that
+/// starts dozens of nodes then burns its CPU in them.
+pub fn shared_runtime() -> ckb_async_runtime::Handle {
+    static RT: std::sync::OnceLock<ckb_async_runtime::Handle> = std::sync::OnceLock::new();
+    RT.get_or_init(ckb_async_runtime::new_background_runtime).clone()
+}
+
 impl Node {
     pub fn start(cfg: &NodeCfg) -> Node {
         let (shared, mut pack) = match &cfg.root {
@@ -217,7 +225,7 @@ impl Node {
                 std::fs::create_dir_all(root.join("ancient")).unwrap();
                 let mut sc = cfg.store.clone().unwrap_or_default();
                 sc.freezer_enable = cfg.freezer;
-                let handle = ckb_async_runtime::new_background_runtime();
+                let handle = shared_runtime();
                 let mut tp = cfg.tx_pool.clone().unwrap_or_default();
                 tp.persisted_data = root.join("tx_pool_persisted");
                 tp.recent_reject = root.join("recent_reject");
